@@ -43,6 +43,10 @@ Programs ==
      three2 |-> [cfg |-> Cf(2, None, None, FALSE), progs |-> <<<<I(1,1,1), G(2)>>, <<I(2,1,2), G(1)>>, <<I(3,1,1), SY>>>>],
      iax    |-> [cfg |-> Cf(2, None, None, FALSE),
                  progs |-> <<<<I(1,1,1), ADV(1), XA, G(1)>>, <<G(1), I(2,2,1), G(1)>>>>],
+     farw   |-> [cfg |-> Cf(1, None, None, FALSE),
+                 progs |-> <<<<I(1,1,1), SY, ADV(1), I(1,3,2), X(1), G(2)>>, <<G(2), SY, G(2)>>>>],
+     farx   |-> [cfg |-> Cf(2, 1, None, FALSE),
+                 progs |-> <<<<I(1,1,1), SY, ADV(1), I(1,4,2), X(1), I(1,6,1)>>, <<SY, G(1), G(2)>>>>],
      ttix   |-> [cfg |-> Cf(2, None, 2, FALSE),
                  progs |-> <<<<I(1,1,1), SY, ADV(1), G(1), ADV(1), X(1), SY, G(1)>>, <<G(1)>>>>],
      grow   |-> [cfg |-> Cf(2, None, None, TRUE),
